@@ -83,6 +83,35 @@ def _wire_rows(rng: random.Random, per_pgn: int):
                     got = [msg.PGN, msg.source, msg.destination, msg.priority]
                 rows.append([pgn, src, dst, prio, ident] + got)
                 meta.append((pgn, fmt, fast))
+    # the receive path of the gateway clients: the encoder's packets for an addressed PGN (ISO request) with addresses that look
+    # like framing bytes of the serial protocol (0xAA, 0x55), like line ends or like nothing in particular, back to back on one
+    # link; the requested PGN number tells the deliveries apart
+    from .. import clientrun as cr
+    import copy
+    req = NMEA2000Decoder().decode_basic_string("2020-01-01-00:00:00.000,6,59904,1,255,3,00,ee,00", already_combined=True)
+    pairs = [(0xAA, 0x55), (0x55, 0xAA), (0xAA, 0xAA), (0x55, 0x55), (0xAA, 255), (7, 0xAA), (0x0D, 0x0A), (0x0A, 0x0D), (0, 0), (255, 255),
+             (254, 1)] + [(rng.randrange(256), rng.randrange(256)) for _ in range(12)]
+    for kind, fmt_, enc_name in (("ebyte", "ebyte", "encode_ebyte"), ("yd", "yd", "encode_yacht_devices"), ("waveshare", "usb", "encode_usb")):
+        enc, sent, packets = NMEA2000Encoder(), [], []
+        for j, (src, dst) in enumerate(pairs):
+            m = copy.deepcopy(req)
+            m.source, m.destination, m.priority = src, dst, j % 8
+            m.fields[0].value = m.fields[0].raw_value = 1000 + j
+            try:
+                pk = getattr(enc, enc_name)(m)
+            except ValueError:
+                continue
+            ident = int.from_bytes(pk[0][1:5], "big") if kind == "ebyte" else int.from_bytes(pk[0][5:9], "little") if kind == "waveshare" \
+                else int(pk[0].split()[0], 16)
+            sent.append((1000 + j, src, dst, j % 8, ident))
+            packets += [((b"00:00:00.000 R " + p) if kind == "yd" else p, "valid") for p in pk]
+        got = {}
+        for m in cr.deliveries(kind, packets):
+            if m.PGN == 59904:
+                got[m.fields[0].raw_value] = [m.PGN, m.source, m.destination, m.priority]
+        for tag, src, dst, prio, ident in sent:
+            rows.append([59904, src, dst, prio, ident] + got.get(tag, [-1, -1, -1, -1]))
+            meta.append((59904, f"client-{kind}", False))
     return rows, meta
 
 
